@@ -24,7 +24,9 @@
 //	{"ev":"scrape"}             gather the registry
 //	{"ev":"reload","labels","lep","gm","sm","files"}   rewrite metrics.yaml / flows / quotas, POST /load_flows
 //	{"ev":"tick","d"}           mock clock + d seconds
-//	{"ev":"collect"}            one tick of the access-log based histogram managers (hook, when built with it)
+//	{"ev":"collect"}            one tick of the access-log based histogram managers (transactionMetricsManager.collectMetrics and,
+//	                            when the start event says "legacy":true, LegacyMetricManager.collectMetrics - production runs
+//	                            them from tickers; exported under the verif tag)
 //
 // trace (outdir/trace-NNN.ndjson, one file per script chunk): {"ev":"config"} then per script {"ev":"reset",...} and the
 // events above echoed with what the engine answered ("ans") / exported ("samples").
@@ -51,9 +53,11 @@ import (
 	"lunar/aggregation-plugin/common"
 	"lunar/aggregation-plugin/discovery"
 	"lunar/engine/actions"
+	"lunar/engine/metrics"
 	"lunar/engine/routing"
 	contextmanager "lunar/toolkit-core/context-manager"
 	"lunar/toolkit-core/verifhook"
+	sharedConfig "lunar/shared-model/config"
 	sharedDiscovery "lunar/shared-model/discovery"
 
 	"github.com/negasus/haproxy-spoe-go/action"
@@ -319,6 +323,7 @@ type child struct {
 	root    string
 	dm      *routing.HandlingDataManager
 	handler routing.MessageHandler
+	legacy  *metrics.LegacyMetricManager
 	mux     *http.ServeMux
 	state   *discovery.State
 	tree    *common.SimpleURLTree
@@ -508,7 +513,7 @@ func (c *child) txn(e map[string]any) vh.Ev {
 		Internal: false, RequestID: id,
 	})
 	c.seq++
-	out["logged"] = vh.Ev{"m": m, "url": url, "st": status, "tag": tag}
+	out["logged"] = vh.Ev{"m": m, "url": url, "st": status, "tag": tag, "d": num(e, "d"), "td": num(e, "td")}
 	return out
 }
 
@@ -597,7 +602,7 @@ func scrape() (samples []vh.Ev, gerr string) {
 			continue
 		}
 		for _, m := range mf.GetMetric() {
-			s := vh.Ev{"n": mf.GetName(), "t": strings.ToLower(mf.GetType().String()), "l": labelsOf(m), "p": 0}
+			s := vh.Ev{"n": mf.GetName(), "t": strings.ToLower(mf.GetType().String()), "l": labelsOf(m), "p": 0, "sum": 0}
 			pos := func(f float64) int {
 				if f > 0 {
 					return 1
@@ -656,6 +661,13 @@ func (c *child) start(e map[string]any) vh.Ev {
 	c.mux = http.NewServeMux()
 	c.dm.SetHandleRoutes(c.mux)
 	c.handler = routing.Handler(c.dm)
+	if b, _ := e["legacy"].(bool); b {
+		// the policy-mode histogram manager, fed by the same discovery state file (it needs nothing else of policy mode)
+		c.legacy, err = metrics.NewLegacyMetricManager(sharedConfig.Exporters{})
+		if err != nil {
+			out["refused"] = "legacy metric manager: " + err.Error()
+		}
+	}
 	return out
 }
 
@@ -731,6 +743,15 @@ func runChild() {
 		case "reload":
 			if started {
 				c.emit(c.reload(e))
+			}
+		case "collect":
+			if started {
+				o := echo(e)
+				o["ran"] = c.dm.GetMetricManager().VerifCollectAccessLogMetrics()
+				if c.legacy != nil {
+					c.legacy.VerifCollect()
+				}
+				c.emit(o)
 			}
 		case "tick":
 			clk := contextmanager.Get().GetMockClock()
